@@ -465,7 +465,7 @@ func execMix(e *Env, pp any) {
 
 func init() {
 	reg := func(name string, props []string, b Bias) {
-		Register(&Family{Name: name, Props: props, New: func() any { return &MixParams{} }, Gen: genMix(b), Exec: execMix})
+		Register(&Family{Name: name, Props: props, New: func() any { return &MixParams{} }, Gen: genMix(b), Exec: execMix, ShrinkKeys: []string{"callers"}})
 	}
 	reg("mix.streams", []string{"C02", "C05", "C06"}, Bias{Streams: 90, Errors: 10, Metadata: 10, MaxMsgs: 200, MaxCalls: 32, AllTopos: true})
 	reg("mix.status", []string{"C03"}, Bias{Streams: 60, Errors: 75, Metadata: 5, MaxMsgs: 4, MaxCalls: 6})
@@ -488,6 +488,9 @@ func checkStreams(run *MixRun) {
 			continue
 		}
 		site := kindNames[c.Kind]
+		if !r.Started {
+			continue // no caller task runs this call (minimised scenario)
+		}
 		if !r.Returned {
 			e.Violate(prop, "hang", site, "call %d (%s): client program has not finished after settle\n%s", id, site, e.WaitGraph())
 			continue
